@@ -251,7 +251,10 @@ class Endpoint:
                 ctype = (self.headers.get("Content-Type") or "").split(";")[0].strip().lower()
                 raw = self._body() if method == "POST" else b""
                 entry = {"path": path, "method": method, "ctype": ctype, "utf8": True,
-                         "accept": self.headers.get("Accept") or ""}
+                         "accept": self.headers.get("Accept") or "",
+                         # the request as it arrived (transport tie with lean/RV/C20/Conn.lean): URL, body bytes,
+                         # the path before any /sparql routing
+                         "raw_path": self.path, "raw_body": raw if method == "POST" else None, "url_path": path}
                 text = None
                 try:
                     if method == "POST" and ctype == "application/x-www-form-urlencoded":
@@ -276,6 +279,9 @@ class Endpoint:
                         ep.log.append(entry)
                     return self._reply(400, "text/plain", b"request is not UTF-8")
                 # parameters / headers this endpoint does not know are ignored, but logged
+                # every protocol / extra parameter except the request text itself, decoded (URL first, then form)
+                entry["params"] = [(k, v) for k, vs in q.items() for v in vs]
+                entry["text_key"] = None      # the parameter the text was taken from (None: the body itself)
                 entry["x_param"] = q.get("x-extra", [])
                 entry["x_header"] = self.headers.get("X-Extra")
                 entry["auth"] = self.headers.get("Authorization")
@@ -291,6 +297,7 @@ class Endpoint:
                         if path == "/query":
                             if text is None:
                                 text = (q.get("query") or [None])[0]
+                                entry["text_key"] = "query"
                             if text is None:
                                 return self._reply(400, "text/plain", b"no query")
                             entry["text"] = text
@@ -301,16 +308,19 @@ class Endpoint:
                                 return self._reply(200, "application/rdf+xml", res.graph.serialize(format="xml", encoding="utf-8"))
                             if JSON_MT in acc and XML_MT not in acc:
                                 entry["format"] = "json"
-                                return self._reply(200, JSON_MT, results_json(res))
+                                entry["res_body"] = results_json(res)      # the document sent (result-layer tie)
+                                return self._reply(200, JSON_MT, entry["res_body"])
                             if XML_MT in acc or "*/*" in acc or not acc:
                                 entry["format"] = "xml"
-                                return self._reply(200, XML_MT + "; charset=utf-8", results_xml(res))
+                                entry["res_body"] = results_xml(res)
+                                return self._reply(200, XML_MT + "; charset=utf-8", entry["res_body"])
                             return self._reply(406, "text/plain", b"not acceptable")
                         elif path == "/update":
                             if method != "POST":
                                 return self._reply(405, "text/plain", b"update needs POST")
                             if text is None:
                                 text = (q.get("update") or [None])[0]
+                                entry["text_key"] = "update"
                             if text is None:
                                 return self._reply(400, "text/plain", b"no update")
                             entry["text"] = text
